@@ -91,6 +91,8 @@ namespace ip {
 	void tcp::acceptor::open(tcp protocol, boost::system::error_code& ec)
 	{
 		if (is_open()) close(ec);
+		// a moved-from acceptor is not open, but still carries its listen state
+		m_queue_size_limit = -1;
 		socket::open(protocol, ec);
 	}
 
